@@ -530,8 +530,12 @@ func ruleIndexRange(w *World, r *Report) {
 				r.add("RANGE", key, pos, Discharged, "interval "+iv.String()+" is inside [0, n-1]")
 			case iv.unk:
 				r.add("RANGE", key, pos, Info, "the printed "+axis+" index passes through a construct the interval analysis does not model; bound "+iv.String()+" (no verdict)")
+			case iv.lo == negInf && iv.hi == posInf && reducingConstruct(w, v, 0, map[ssa.Value]bool{}):
+				// a remainder, mask, comparison-selected value or helper stands between the index and
+				// the printed value, in a form the interval analysis does not read: no verdict
+				r.add("RANGE", key, pos, Undecided, "the printed "+axis+" index could only be bounded by "+iv.String()+" (n = 2^hZoom), but its derivation contains a reducing construct the interval analysis does not interpret")
 			default:
-				r.add("RANGE", key, pos, Violated, "the printed "+axis+" index can only be bounded by "+iv.String()+" (n = 2^hZoom); the property requires [0, n-1] on every path")
+				r.add("RANGE", key, pos, Violated, "the printed "+axis+" index can only be bounded by "+iv.String()+" (n = 2^hZoom) and nothing in its derivation reduces it; the property requires [0, n-1] on every path")
 			}
 		}
 	}
@@ -558,4 +562,79 @@ func localAggregate(addr ssa.Value) *ssa.Alloc {
 		}
 	}
 	return nil
+}
+
+// reducingConstruct: the derivation of v (through arithmetic, conversions,
+// local variables, phis and the bodies of module callees, three calls deep)
+// contains something that can bring a value back into a range: a remainder, a
+// mask, math.Mod/Remainder/Floor-based reduction, a value selected by a branch
+// (phi), a table lookup, or a call the walk cannot enter.  Its absence means the
+// printed index is plain arithmetic on the parsed index and the shift.
+func reducingConstruct(w *World, v ssa.Value, depth int, seen map[ssa.Value]bool) bool {
+	v = resolve(v)
+	if v == nil || seen[v] {
+		return false
+	}
+	seen[v] = true
+	switch x := v.(type) {
+	case *ssa.BinOp:
+		switch x.Op {
+		case token.REM, token.AND, token.AND_NOT, token.SHR:
+			return true
+		}
+		return reducingConstruct(w, x.X, depth, seen) || reducingConstruct(w, x.Y, depth, seen)
+	case *ssa.UnOp:
+		if x.Op == token.MUL {
+			return true // a load the walk could not resolve (table, field, captured variable)
+		}
+		return reducingConstruct(w, x.X, depth, seen)
+	case *ssa.Convert:
+		return reducingConstruct(w, x.X, depth, seen)
+	case *ssa.Phi:
+		return true
+	case *ssa.Extract:
+		return reducingConstruct(w, x.Tuple, depth, seen)
+	case *ssa.Call:
+		g := calleeOf(x)
+		if g == nil {
+			return true // closure or interface call
+		}
+		if accessorField(g) != nil {
+			return false // a getter of the parsed ID
+		}
+		if !w.InModule(g) || g.Blocks == nil {
+			if p := pkgOf(g); p != nil && p.Path() == "math" {
+				switch g.Name() {
+				case "Mod", "Remainder", "Floor", "Trunc", "Min", "Max":
+					return true
+				}
+				for _, a := range x.Call.Args {
+					if reducingConstruct(w, a, depth, seen) {
+						return true
+					}
+				}
+				return false
+			}
+			return true
+		}
+		if depth >= 3 {
+			return true
+		}
+		for _, ret := range returnsOf(g) {
+			for _, rv := range ret.Results {
+				if reducingConstruct(w, rv, depth+1, seen) {
+					return true
+				}
+			}
+		}
+		for _, a := range x.Call.Args {
+			if reducingConstruct(w, a, depth, seen) {
+				return true
+			}
+		}
+		return false
+	case *ssa.Parameter, *ssa.Const:
+		return false
+	}
+	return true
 }
